@@ -19,8 +19,8 @@ ASSUMPTIONS = [
     'awaitable completions and resume calls are delivered between two event-loop callbacks',
 ]
 BUDGET = {
-    'quick': {'enum': ['p3', 'w2', 'wfail', 'pair3', 'tasks', 'killwithdrawn'], 'hyp': 2000, 'shards': 8},
-    'thorough': {'enum': ['p3', 'p4', 'w2', 'w3', 'wfail', 'pair3', 'pair4', 'tasks', 'killwithdrawn'], 'hyp': 100000, 'shards': 16},
+    'quick': {'enum': ['p3', 'w2', 'wfail', 'pair3', 'tasks', 'killwithdrawn', 'listener', 'hookwithdrawn'], 'hyp': 2000, 'shards': 8},
+    'thorough': {'enum': ['p3', 'p4', 'w2', 'w3', 'wfail', 'pair3', 'pair4', 'tasks', 'killwithdrawn', 'listener', 'hookwithdrawn'], 'hyp': 100000, 'shards': 16},
 }
 ALPHABET = [['resume', 'v1'], ['resume', None], ['pause', 'pm'], ['play']]
 
@@ -47,6 +47,39 @@ def enumerate_cases(tier, scope):
                     if kinds.count('kill') > 1 or (kk == 4 and kinds.count('withdraw') > 1):
                         continue
                     yield {'program': cat[name], 'schedule': [['tick', 1]] + sched, 'tag': f'killwithdrawn:{name}'}
+    elif scope == 'listener':
+        # requests made by a listener from inside a notification (a supervisor pausing every process that starts to wait,
+        # playing every process that was paused or starts to run) or by a lifecycle hook, around the wake-up
+        notifs = ['on_process_waiting', 'on_process_running', 'on_process_paused', 'on_process_played']
+        for name in ('wait1', 'waitwait'):
+            for on in notifs:
+                for occ in (1, 2):
+                    for do in (['pause', 'lp'], ['play', None]):
+                        for kk in (1, 2, 3):
+                            for sched in gen.schedules(ALPHABET, kk, 1 if kk < 3 else 0):
+                                kinds = [e[0] for e in sched]
+                                if 'resume' not in kinds or (kk == 3 and (kinds.count('resume') > 1 or 'play' not in kinds)):
+                                    continue
+                                yield {'program': cat[name], 'schedule': [['tick', 1]] + sched, 'listener': [{'on': on, 'occ': occ, 'do': do}], 'tag': f'listener:{name}'}
+            for hook in ('on_waiting', 'on_entered', 'on_exit_waiting', 'on_running', 'on_paused', 'on_playing'):
+                for occ in (1, 2):
+                    for do in (['pause', 'hp'], ['play', None]):
+                        for kk in (1, 2):
+                            for sched in gen.schedules(ALPHABET, kk, 1):
+                                if 'resume' not in [e[0] for e in sched]:
+                                    continue
+                                yield {'program': cat[name], 'schedule': [['tick', 1]] + sched, 'hooks': [{'hook': hook, 'occ': occ, 'pos': 'post', 'do': do}], 'tag': f'hook:{name}'}
+    elif scope == 'hookwithdrawn':
+        # a hook or listener asks for a kill (pause) from inside a transition and drops the request at once: the wait that
+        # was just entered is as good as any other
+        for name in ('wait1', 'waitwait'):
+            for what in ('killw', 'pausew'):
+                for occ in (1, 2):
+                    plans = [{'hooks': [{'hook': hook, 'occ': occ, 'pos': pos, 'do': [what, 'hw']}]} for hook in ('on_waiting', 'on_entered', 'on_exit_running', 'on_wait', 'on_running') for pos in ('pre', 'post')]
+                    plans += [{'listener': [{'on': on, 'occ': occ, 'do': [what, 'lw']}]} for on in ('on_process_waiting', 'on_process_running')]
+                    for plan in plans:
+                        for sched in ([['resume', 'v1']], [['tick', 1], ['resume', 'v1']], [['resume', 'v1'], ['tick', 2], ['resume', 'v2']], [['tick', 2], ['resume', None], ['tick', 2], ['resume', 'v2']], [['pause', 'pm'], ['resume', 'v1'], ['play']]):
+                            yield dict(plan, program=cat[name], schedule=[['tick', 1]] + sched, tag=f'hookwithdrawn:{name}')
     elif scope == 'tasks':
         # the task stepping the waiting process is cancelled by its caller around the wake-up, and the process is stepped
         # again later: the wake-up must survive that as well (sync steps only: a cancelled wait is simply waited again)
@@ -110,7 +143,12 @@ def _cases(draw, tier):
         return {'kind': 'pair', 'n': n, 'schedule': sched}
     prog = draw(gen.programs(max_steps=5, self_calls=(), soon=False, endings=('value', 'unsuccessful'), waits=True))
     sched = draw(gen.control_schedules(['pause', 'play', 'resume', 'resume', 'open'], max_events=6, max_gap=3))
-    return {'program': prog, 'schedule': sched}
+    case = {'program': prog, 'schedule': sched}
+    if draw(st.integers(0, 2)) == 0:
+        case['listener'] = draw(gen.listener_plans(['pause', 'play']))
+    elif draw(st.integers(0, 2)) == 0:
+        case['hooks'] = draw(gen.hook_plans(['pause', 'play']))
+    return case
 
 
 def strategy(tier):
@@ -235,6 +273,12 @@ def execute(case):
     for esc in a['escapes']:
         v('loop-exception', str(esc))
         break
+    if not kills:
+        # the woken process is not held back by a pause that nobody asked for: after a play() it stays un-paused until
+        # the next pause request (the completion phase would play it again and hide that)
+        from .c05 import _check_unpaused_after_play
+
+        _check_unpaused_after_play(a, v)
     for r in a['calls']:
         if r['what'] == 'resume' and r['raised'] and r['state_before'] == 'waiting':
             v('resume-raised', f"resume in WAITING raised {r['raised']}")
